@@ -15,12 +15,18 @@ def run(tier):
         env = {"H_SPEC": spec, "H_LEN": str(n)}
         conds.append(Cond("h_parse_frag.py", "same_as_whole", to, twin="reach", path_timeout=to / 2, env=env))
         conds.append(Cond("h_parse_frag.py", "continue_sound", to, path_timeout=to / 2, env=env))
+    for spec, alpha, ql, tl in RX_SPECS:
+        if spec == "rxstar":
+            continue  # r"a+" under * can be split in more than one way: outside the property's class
+        conds.append(Cond("h_parse_frag.py", "same_as_whole_fa", to, path_timeout=to / 2,
+                          env={"H_SPEC": spec, "H_LEN": str(ql if tier == "quick" else tl), "H_ALPHA": alpha}))
     run.run_conditions(conds, conformance_harnesses=["h_parse_frag.py"])
     run.encoded = PARSER_FUNCS
     run.extra["source_sha256_16"] = source_fingerprint(PARSER_FILES)
     run.bounds = {"word": "str over all code points", "cuts": "every composition into consecutive non-empty fragments (symbolic List[bool])",
                   "max_len": {s: (q if tier == "quick" else t) for s, q, t in FRAG_SPECS}}
-    run.outside = ["regex terminals (scan_regex incomplete_idx arithmetic)", "bytes / bit-level inputs", "FandangoIO.add_receive threading"]
+    run.bounds["regex terminals"] = "4 grammars with regex terminals, ALL words over a 2-4 letter alphabet up to length 3-4 and every fragmentation (cuts inside regex matches)"
+    run.outside = ["regex terminals on words outside the stated finite alphabets", "bytes / bit-level inputs", "FandangoIO.add_receive threading"]
     run.assumptions = TRUST
     return run.finish(
         "Bounded symbolic execution of IterativeParser.consume per fragment with the word AND every cut position symbolic: the "
